@@ -404,7 +404,8 @@ def rule_cluster_geometry(chk, prog):
     from ..microai.interp import default_obj
     r = chk.rule("CLUSTER-BOUNDS", "Cluster::computeBoundingRect interpreted on the hierarchy root{ P{ Q{0,1}, 3 }, 2 } for several concrete "
                  "rectangle layouts, margins and paddings: bounds(C) = padding(C) applied to the union of the member rectangles of C and "
-                 "of margin(child)-extended bounds of every child cluster (no member is dropped from the union)", floor=4)
+                 "of margin(child)-extended bounds of every child cluster (no member is dropped from the union); a cluster on a fixed rectangle "
+                 "takes that rectangle, and the clusters below it still get their own bounds", floor=6)
     fn = prog.fn("cola::Cluster::computeBoundingRect")
     XB = {"vpsc::Rectangle::xBorder": Box(Fraction(0)), "vpsc::Rectangle::yBorder": Box(Fraction(0))}
 
@@ -451,6 +452,33 @@ def rule_cluster_geometry(chk, prog):
                     bad = bad or "bounds of %s = %s, expected %s (union of its member rectangles and child-cluster bounds)" % (
                         nm, tuple(str(v) for v in got), want)
             (r.bad if bad else r.ok)("layout %d, margin %s, padding %s" % (li, margin, padding), fn.where(), bad or "")
+    # a cluster below a fixed-rectangle cluster: root{ F(on rectangle 3){ Q{0,1}, 2 } }
+    for margin, padding in ((0, 0), (4, 1)):
+        lay = [(40, 50, 40, 50), (45, 70, 45, 60), (0, 5, 0, 5), (-100, 200, -100, 200)]
+        rs = Vec([R(*t) for t in lay], "vpsc::Rectangle *")
+        Q = cluster("cola::RectangularCluster", [0, 1], [], margin, padding)
+        Fx = cluster("cola::RectangularCluster", [2], [Q], margin, padding)
+        Fx.f["m_rectangle_index"] = 3
+        root = cluster("cola::RootCluster", [], [Fx], 0, 0)
+        it = Interp(prog, Oracle([]), globals=dict(XB))
+        try:
+            it.call(fn, root, None, None, arg_values=[Box(rs)])
+        except (Unsupported, AssertFail) as e:
+            raise AnalysisBroken("computeBoundingRect (fixed-rectangle cluster) outside the interpreter subset: %s" % e)
+        r.count()
+        bad = None
+        bq = Q.f["bounds"]
+        got = tuple(Fraction(bq.f[k]) for k in ("minX", "maxX", "minY", "maxY"))
+        want = (40 - padding, 70 + padding, 40 - padding, 60 + padding)
+        if got != tuple(Fraction(v) for v in want):
+            bad = "bounds of the cluster Q inside the fixed-rectangle cluster = %s, expected %s: generateSeparationConstraints decides from these " \
+                  "bounds which siblings of Q need a separation constraint" % (tuple(str(v) for v in got), want)
+        bf = Fx.f["bounds"]
+        gotf = tuple(Fraction(bf.f[k]) for k in ("minX", "maxX", "minY", "maxY"))
+        if not bad and gotf != tuple(Fraction(v) for v in lay[3]):
+            bad = "bounds of the fixed-rectangle cluster = %s, expected its rectangle %s" % (tuple(str(v) for v in gotf), lay[3])
+        (r.bad if bad else r.ok)("cluster below a fixed-rectangle cluster, margin %s, padding %s" % (margin, padding),
+                                 prog.fn("cola::RectangularCluster::computeBoundingRect").where(), bad or "")
     r2 = chk.rule("CLUSTER-VARS", "Cluster::createVars interpreted on root{ A{} (empty), B{0,1}, C{ D{2} } }: in post-order every cluster -- "
                   "empty ones included -- appends exactly its two boundary variables, clusterVarId is the index of the first, and "
                   "vars[clusterVarId], vars[clusterVarId+1] are the cluster's own min / max variables: the numbering the containment and "
